@@ -235,6 +235,26 @@ func (o *c10Obs) After(w *wWorld, st *wStep) *kit.Viol {
 			o.tainted[st.Route] = true
 		}
 	}
+	// P2P: a participant who had unsubscribed is subscribed again by the mere loading of the topic
+	// for the other participant (listed C08 finding reload-differs:p2p-unsubscribed-peer-resubscribed-on-load):
+	// no request of that user, no presence handshake - pairs on that topic are not judged.
+	for _, r := range post.Subs {
+		if !strings.HasPrefix(r.Topic, "p2p") || r.DeletedAt != nil {
+			continue
+		}
+		for _, q := range o.pre.Subs {
+			if q.Topic == r.Topic && q.User == r.User && q.DeletedAt != nil {
+				actor := -1
+				if st.User >= 0 {
+					actor = st.User
+				}
+				invited := st.Op.K == "set" && st.Op.A == "given"
+				if (actor < 0 || w.users[actor].uid != r.User) && !invited {
+					o.tainted[r.Topic] = true
+				}
+			}
+		}
+	}
 	o.att.update(w, st)
 	switch st.Op.K {
 	case "restart":
